@@ -133,7 +133,7 @@ func main() {
 
 	type diff struct {
 		Op, Query, DF, Want, Got string
-		Goroutine, Round       int
+		Goroutine, Round         int
 	}
 	var mu sync.Mutex
 	var diffs []diff
